@@ -1,4 +1,5 @@
 import ArrModel.C14
+import ArrModel.C14Ext
 import Driver.Proto
 namespace Driver.C14
 open ArrModel Driver
@@ -24,7 +25,9 @@ def handle1 (op : String) (args : List String) : Option String :=
         | some r =>
           let d := showRes showArr r
           if a.ndim = 2 ∧ b.ndim = 2 ∧ d.startsWith "err" ∧ m.startsWith "ok" then d ++ " | matmul " ++ m else d
-        | none => "open")
+        -- an operand of rank ≥ 3 (`dot_1d` on a stack, `dot_nd`): outside the statement, modelled as written in
+        -- `ArrModel/C14Ext.lean` (`dotFull` = `dot` where `dot` answers) so that the region is compared, not open
+        | none => showRes showArr (ArrModel.C14.dotFull a b))
     | "vdot" => some (showRes showArr (ArrModel.C14.vdot a b))
     | "inner" => some (showRes showArr (ArrModel.C14.inner a b))
     | "outer" => some (showRes showArr (ArrModel.C14.outer a b))
